@@ -1,0 +1,39 @@
+// Copyright © 2022-2026 Obol Labs Inc. Licensed under the terms of a Business Source License 1.1
+
+//go:build verif
+
+// Verification contracts (comments only; read by /verif/govc, never compiled into charon).
+package sigagg
+
+//@ pure core.SignedData.Signature core.SignedData.SetSignature core.SignedData.Clone core.SignedData.MessageRoot
+//@ pure tblsconv.SigFromCore tblsconv.SigToCore tbls.ThresholdAggregate Aggregator.verifyFunc
+
+//@ func (a *Aggregator) aggregate
+//@ props C09 C01
+//@ requires a.threshold >= 1
+//@ callreq tbls.ThresholdAggregate: len(a1) >= a.threshold && len(parSigs) >= a.threshold
+//@ callreq tbls.ThresholdAggregate: forallk(i, a1, exists(k, 0, len(parSigs), parSigs[k].ShareIdx == i && res(1, tblsconv.SigFromCore(parSigs[k].Signature())) == nil && a1[i] == res(0, tblsconv.SigFromCore(parSigs[k].Signature()))))
+//@ callreq tbls.ThresholdAggregate: forall(k, 0, len(parSigs), has(a1, parSigs[k].ShareIdx))
+//@ callreq fullSig.SetSignature: a1 == tblsconv.SigToCore(sig)
+//@ ensures r1 == nil ==> a.verifyFunc(ctx, pubkey, r0) == nil
+//@ ensures r1 == nil ==> len(parSigs) >= a.threshold
+//@ ensures r1 == nil ==> ncalls(tbls.ThresholdAggregate) == 1 && ncalls(fullSig.SetSignature) == 1
+//@ canary r1 != nil
+//@ loop 1 invariant forallk(i, blsSigs, exists(k, 0, $i, parSigs[k].ShareIdx == i && res(1, tblsconv.SigFromCore(parSigs[k].Signature())) == nil && blsSigs[i] == res(0, tblsconv.SigFromCore(parSigs[k].Signature()))))
+//@ loop 1 invariant forall(k, 0, $i, has(blsSigs, parSigs[k].ShareIdx))
+//@ loop 1 invariant ncalls(tbls.ThresholdAggregate) == 0 && ncalls(fullSig.SetSignature) == 0
+//@ loop 2 invariant isnil(fullSig) || exists(k, 0, len(parSigs), true)
+//@ loop 2 invariant ncalls(tbls.ThresholdAggregate) == 1 && ncalls(fullSig.SetSignature) == 0 && err == nil
+
+//@ func (a *Aggregator) Aggregate
+//@ props C09 C01 C18
+//@ requires a.threshold >= 1
+//@ callreq sub: forallk(pk, set, has(output, pk) && a.verifyFunc(ctx, pk, output[pk]) == nil)
+//@ callreq sub: forallk(pk, output, has(set, pk) && has(a3, pk) && a3[pk] == res(0, output[pk].Clone()))
+//@ callreq sub: a2 == duty
+//@ ensures len(set) == 0 ==> result != nil && ncalls(sub) == 0
+//@ canary result != nil
+//@ loop 1 invariant forall(t, 0, $i, has(output, $ks[t]) && a.verifyFunc(ctx, $ks[t], output[$ks[t]]) == nil)
+//@ loop 1 invariant forallk(pk, output, exists(t, 0, $i, $ks[t] == pk))
+//@ loop 1 invariant ncalls(sub) == 0
+//@ loop 2 invariant true
